@@ -905,7 +905,7 @@ pub fn generate(kind: &str, tier: &str, seed: u64, shard: u64, nshards: u64, pat
                 let mut run = Run::new(&t, "fixed", true);
                 let sizes: &[usize] = if tier == "thorough" { &[16777215, 1 << 20, 16777214, 65536 * 3 + 1] } else { &[16777215, 300000] };
                 // the first run of every shard uses the largest legal chunk size (a 16 MiB message in ONE chunk)
-                let cs = if r == 0 { 0x7FFFFFFF } else { *rng.pick(&[65536u32, 65537, 100_000, 1 << 20, 4096 * 16, 16777215, 16777216]) };
+                let cs = if r == 0 { 0x7FFFFFFF } else if r == 1 { 100_000 } else { *rng.pick(&[65536u32, 65537, 100_000, 1 << 20, 4096 * 16, 16777215, 16777216]) };
                 let mut steps = vec![SerStep { m: M { ty: 1, msid: 0, ts: 0, data: cs.to_be_bytes().to_vec() }, fu: true, cd: false, setcs: Some(cs) }];
                 for (i, &sz) in sizes.iter().enumerate() {
                     let mut d = vec![(r * 7 + i) as u8; sz];
@@ -921,7 +921,7 @@ pub fn generate(kind: &str, tier: &str, seed: u64, shard: u64, nshards: u64, pat
                 run_serializer(&mut run, &steps, &mut |_| false);
                 // even runs in one piece; odd runs in big pieces (60 000 .. 140 000 bytes: a chunk is partly buffered with more than
                 // 64 KiB of it already there) or in the usual small ones
-                let all = if r % 2 == 0 { do_feed(&mut run, &mut rng, Part::OneShot) } else if rng.chance(2, 3) {
+                let all = if r % 2 == 0 { do_feed(&mut run, &mut rng, Part::OneShot) } else if r == 1 || rng.chance(2, 3) {
                     let stream = run.stream.clone();
                     let mut pieces = Vec::new();
                     let mut left = stream.len();
